@@ -471,6 +471,127 @@ pub fn empty_reply_case(dir: &std::path::PathBuf, empties: usize, verbose: bool)
     (steps, None)
 }
 
+/// The real HTTP path (the seam passes every request through to reqwest): a loopback tracker
+/// answers 500, then a body that is no bencode, then a failure reason, then good replies in the
+/// given transfer framing ("content-length", "chunked" = Transfer-Encoding: chunked in two chunks,
+/// "close" = HTTP/1.0-style body ended by closing the connection, "split" = Content-Length with
+/// the body sent in two segments). The listed peer must be dialled (connect seam records and
+/// refuses) within 20 s of real time. Single executions under the real clock.
+pub fn real_http_case(dir: &std::path::PathBuf, framing: &'static str) -> (u64, Option<(&'static str, String)>) {
+    use std::cell::RefCell;
+    use std::rc::Rc;
+    use std::time::{Duration, Instant};
+    use tokio::io::{AsyncReadExt, AsyncWriteExt};
+    core::wipe_dir(dir);
+    rdest::verif::clear_snapshots();
+    rdest::verif::set_choices(vec![]);
+    core::set_quiet_panics(true);
+    let rt = match tokio::runtime::Builder::new_current_thread().enable_all().build() {
+        Ok(rt) => rt,
+        Err(e) => return (0, Some(("MACHINERY", e.to_string()))),
+    };
+    let local = tokio::task::LocalSet::new();
+    let dialled: Rc<RefCell<Vec<String>>> = Rc::new(RefCell::new(vec![]));
+    let d2 = dialled.clone();
+    rdest::verif::set_net(Some(Box::new(move |addr: &str| {
+        d2.borrow_mut().push(addr.to_string());
+        None
+    })));
+    rdest::verif::set_http(None); // every announce goes out through reqwest
+    let served: Rc<RefCell<usize>> = Rc::new(RefCell::new(0));
+    let served2 = served.clone();
+    let listed = peer_cfg(0, true);
+    let listed_addr = listed.addr.clone();
+    let res: Result<Option<(&'static str, String)>, String> = local.block_on(&rt, async {
+        let listener = tokio::net::TcpListener::bind("127.0.0.1:0").await.map_err(|e| e.to_string())?;
+        let port = listener.local_addr().map_err(|e| e.to_string())?.port();
+        let t = Torrent::with_announce("t", 5, &[("f", 15)], true, &format!("http://127.0.0.1:{}/announce", port));
+        let good = crate::fullworld::tracker_body(&[&listed]);
+        tokio::task::spawn_local(async move {
+            loop {
+                let (mut sock, _) = match listener.accept().await {
+                    Ok(x) => x,
+                    Err(_) => return,
+                };
+                let mut req = vec![];
+                let mut buf = [0u8; 4096];
+                while !req.windows(4).any(|w| w == b"\r\n\r\n") {
+                    match sock.read(&mut buf).await {
+                        Ok(0) | Err(_) => break,
+                        Ok(n) => req.extend_from_slice(&buf[..n]),
+                    }
+                }
+                // the fault prefix is played in front of the chunked replies only (one second of real time per retry)
+                let k = *served2.borrow() + if framing == "chunked" { 0 } else { 3 };
+                *served2.borrow_mut() += 1;
+                let plain = |status: &str, body: &[u8]| [format!("HTTP/1.1 {}\r\nContent-Type: text/plain\r\nContent-Length: {}\r\nConnection: close\r\n\r\n", status, body.len()).as_bytes(), body].concat();
+                match k {
+                    0 => {
+                        let _ = sock.write_all(&plain("500 Internal Server Error", b"down")).await;
+                    }
+                    1 => {
+                        let _ = sock.write_all(&plain("200 OK", b"<html>maintenance</html>")).await;
+                    }
+                    2 => {
+                        let _ = sock.write_all(&plain("200 OK", b"d14:failure reason4:busye")).await;
+                    }
+                    _ => match framing {
+                        "chunked" => {
+                            let (a, b) = good.split_at(good.len() / 2);
+                            let _ = sock.write_all(b"HTTP/1.1 200 OK\r\nContent-Type: text/plain\r\nTransfer-Encoding: chunked\r\nConnection: close\r\n\r\n").await;
+                            let _ = sock.write_all(&[format!("{:x}\r\n", a.len()).as_bytes(), a, b"\r\n"].concat()).await;
+                            let _ = sock.flush().await;
+                            tokio::time::sleep(Duration::from_millis(20)).await;
+                            let _ = sock.write_all(&[format!("{:x}\r\n", b.len()).as_bytes(), b, b"\r\n0\r\n\r\n"].concat()).await;
+                        }
+                        "close" => {
+                            let _ = sock.write_all(b"HTTP/1.0 200 OK\r\nContent-Type: text/plain\r\n\r\n").await;
+                            let _ = sock.write_all(&good).await;
+                        }
+                        "split" => {
+                            let (a, b) = good.split_at(good.len() / 2);
+                            let _ = sock.write_all(format!("HTTP/1.1 200 OK\r\nContent-Type: text/plain\r\nContent-Length: {}\r\nConnection: close\r\n\r\n", good.len()).as_bytes()).await;
+                            let _ = sock.write_all(a).await;
+                            let _ = sock.flush().await;
+                            tokio::time::sleep(Duration::from_millis(20)).await;
+                            let _ = sock.write_all(b).await;
+                        }
+                        _ => {
+                            let _ = sock.write_all(&plain("200 OK", &good)).await;
+                        }
+                    },
+                }
+                let _ = sock.shutdown().await;
+            }
+        });
+        let mut session = rdest::Session::new(t.meta.clone(), *crate::world::OWN_ID);
+        let session_task = tokio::task::spawn_local(async move { session.verif_run().await });
+        let started = Instant::now();
+        let mut contacted = false;
+        while started.elapsed() < Duration::from_secs(20) {
+            tokio::time::sleep(Duration::from_millis(50)).await;
+            if dialled.borrow().iter().any(|a| *a == listed_addr) {
+                contacted = true;
+                break;
+            }
+            if session_task.is_finished() {
+                break;
+            }
+        }
+        let ended = session_task.is_finished();
+        session_task.abort();
+        if contacted {
+            return Ok(None);
+        }
+        Ok(Some(("listed-peers-not-contacted-after-recovery", format!("real HTTP path, loopback tracker (in front of the chunked replies: 500, a body that is no bencode, a failure reason): good replies listing {} ({} framing): the peer was not dialled within 20 s; the tracker served {} announces; dialled {:?}; session loop ended: {}", listed_addr, framing, served.borrow(), dialled.borrow(), ended))))
+    });
+    rdest::verif::set_net(None);
+    match res {
+        Ok(v) => (1, v),
+        Err(e) => (0, Some(("MACHINERY", e))),
+    }
+}
+
 /// The manager is busy (it awaits something inside a handler) while the tracker task goes on
 /// failing and finally succeeds: the reports pile up in the tracker queue and are worked off in one
 /// go when the manager is back. Pumped world (the harness plays the manager loop and can therefore
@@ -738,6 +859,21 @@ fn fault_part(ctx: &Ctx) -> (u64, u64, Vec<Value>) {
             }
         }
     }
+    // the real HTTP path: reply framings that the seam's ready-made responses cannot have
+    {
+        let dir = core::private_cwd("c19", "realhttp");
+        for framing in ["content-length", "chunked", "close", "split"] {
+            let (n, v) = real_http_case(&dir, framing);
+            steps += n;
+            if let Some((class, why)) = v {
+                if class == "MACHINERY" {
+                    ctx.machinery_error(why);
+                } else {
+                    ctx.violation(class, why, json!({"kind": "realhttp", "framing": framing}));
+                }
+            }
+        }
+    }
     let mut bcases: Vec<(usize, Vec<usize>, bool)> = vec![];
     for j in 7..=13usize {
         for word in [vec![], vec![0], vec![2, 3], vec![1, 0, 3]] {
@@ -841,6 +977,24 @@ pub fn replay(_ctx: &Ctx, r: &Value) -> i32 {
         let dir = core::private_cwd("c19", "replay");
         core::set_quiet_panics(true);
         return match budget_case_ext(&dir, r["interesting"].as_u64().unwrap() as usize, &word, r["relist"].as_bool().unwrap_or(false), true).1 {
+            Some((class, why)) => {
+                println!("VIOLATION property=C19 replay=<this file>\n  class={} {}", class, why);
+                1
+            }
+            None => {
+                println!("holds for this case");
+                0
+            }
+        };
+    }
+    if r["kind"] == "realhttp" {
+        let dir = core::private_cwd("c19", "replay");
+        let framing = ["content-length", "chunked", "close", "split"].into_iter().find(|f| r["framing"] == *f).unwrap_or("content-length");
+        return match real_http_case(&dir, framing).1 {
+            Some(("MACHINERY", why)) => {
+                eprintln!("could not be carried out: {}", why);
+                2
+            }
             Some((class, why)) => {
                 println!("VIOLATION property=C19 replay=<this file>\n  class={} {}", class, why);
                 1
